@@ -22,6 +22,7 @@ fn dispatch(req: &Value) -> Result<Value, String> {
         "diff_labels" => tverif::ops_api::diff_labels(req),
         "color_sweep" => tverif::ops_api::color_sweep(req),
         "fmt_rt" => tverif::canon::fmt_rt(req),
+        "core_sigs" => tverif::ops_api::core_sigs(req),
         op => Err(format!("unknown op {op}")),
     }
 }
@@ -31,13 +32,19 @@ fn main() {
     std::env::remove_var("_TRUTH_DEBUG__TEST");
     mon::install_panic_hook();
     let stdin = std::io::stdin();
-    let stdout = std::io::stdout();
+    // truth prints to stdout in places (`extract`): keep the protocol channel private and send fd 1 to stderr
+    let mut proto: std::fs::File = unsafe {
+        use std::os::unix::io::FromRawFd;
+        let fd = libc::dup(1);
+        libc::dup2(2, 1);
+        std::fs::File::from_raw_fd(fd)
+    };
     for line in stdin.lock().lines() {
         let line = match line { Ok(l) => l, Err(_) => break };
         if line.trim().is_empty() { continue; }
         let req: Value = match serde_json::from_str(&line) {
             Ok(v) => v,
-            Err(e) => { let _ = writeln!(stdout.lock(), "{}", json!({"harness_error": format!("bad json: {e}")})); continue; }
+            Err(e) => { let _ = writeln!(proto, "{}", json!({"harness_error": format!("bad json: {e}")})); continue; }
         };
         let base = mon::mem_reset();
         let t0 = std::time::Instant::now();
@@ -53,8 +60,7 @@ fn main() {
         resp["peak"] = json!(peak);
         resp["biggest"] = json!(mon::mem_biggest());
         resp["ms"] = json!(ms);
-        let mut o = stdout.lock();
-        let _ = writeln!(o, "{}", resp);
-        let _ = o.flush();
+        let _ = writeln!(proto, "{}", resp);
+        let _ = proto.flush();
     }
 }
